@@ -5,7 +5,7 @@ import random, itertools, collections
 PID = 'C11'
 HEADER = []
 T0 = 2000000000
-RULE = ('net-chain / net-tree / net-tree-global families (op rt_net): COMPLETE multi-hop runs of one event on the real code - pure chains of depth 2-14 (every target zone, originators above/inside/below the target) and zone trees (depth <= 5, <= 4 children per zone, forests, 1-2 global zones) with a non-global target anywhere (originators on the line, below it, in side branches) or a global-zone target, 1-2 endpoints per zone, random names; link sets: all directly related pairs / a few missing / a random half, plus links between unrelated endpoints; delivery schedule fifo / lifo / seeded random; at every node the real JsonRpcConnection::MessageHandler and either the verif::Relay handler (CanAccessObject test + SyncRelayMessage) or, for host targets, the REAL event::SetNextCheck handler chain through the asynchronous relay queue; checked by the extracted network oracle (nobody twice, fewer deliveries than endpoints, complete under the premise). activation-order family: chains of depth 5-12 with side branches (and random trees), Zone::OnAllConfigLoaded re-run for all zones top-down / bottom-up / in random order, ancestor chains read back and relay steps routed over them; random zone trees (depth 1-4, 1-2 endpoints per zone, shuffled endpoint names, 0-2 global zones) x local identity x '
+RULE = ('multi-net-* families (op rt_netm): 2-4 DISTINCT events in one network on the real code (same topologies/link sets/targets as net-*), originators equal or different, time stamps all equal (one clock tick) / non-decreasing / increasing / decreasing (clock stepped back) / arbitrary, originations interleaved with deliveries or sequential, clock standing still or ticking, per-connection FIFO schedules; every node keeps its own remote log positions; checked per EVENT by the network oracle when the clock never ran backwards, and per delivery against the rule handler-did-not-run iff ts < position. net-chain / net-tree / net-tree-global families (op rt_net): COMPLETE multi-hop runs of one event on the real code - pure chains of depth 2-14 (every target zone, originators above/inside/below the target) and zone trees (depth <= 5, <= 4 children per zone, forests, 1-2 global zones) with a non-global target anywhere (originators on the line, below it, in side branches) or a global-zone target, 1-2 endpoints per zone, random names; link sets: all directly related pairs / a few missing / a random half, plus links between unrelated endpoints; delivery schedule fifo / lifo / seeded random; at every node the real JsonRpcConnection::MessageHandler and either the verif::Relay handler (CanAccessObject test + SyncRelayMessage) or, for host targets, the REAL event::SetNextCheck handler chain through the asynchronous relay queue; checked by the extracted network oracle (nobody twice, fewer deliveries than endpoints, complete under the premise). activation-order family: chains of depth 5-12 with side branches (and random trees), Zone::OnAllConfigLoaded re-run for all zones top-down / bottom-up / in random order, ancestor chains read back and relay steps routed over them; random zone trees (depth 1-4, 1-2 endpoints per zone, shuffled endpoint names, 0-2 global zones) x local identity x '
         'connectivity row (none/all/related/random, optional second older connection) x origin (local, received from a connected '
         'peer through the real JsonRpcConnection::MessageHandler with every claimed originZone, hand-made MessageOrigin, anonymous client) '
         'x target (Host in any zone, the Zone object itself, CheckCommand in a global zone, no security object) x log flag; plus a '
@@ -24,14 +24,14 @@ TRUSTED = ['model: coq/Route/RtModel.v, RtLoad.v (transcription of ApiListener::
 ASSUMPTIONS = ['endpoint names sort like their numbers (harness names them e%03d)',
                'connectivity is symmetric in the network theorems (a TCP connection has two ends)',
                'zones have at most two endpoints (the property\'s bound; Zone::ValidateEndpointsRaw warns beyond that) - with three, the persist decision for the local zone depends on iteration order',
-               'the ts < remote_log_position filter of MessageHandler (C12) never drops a fresh event: messages of one sender arrive in order',
+               'a connection delivers in order (per-connection FIFO) and a node\'s clock does not run backwards: then the ts < remote_log_position filter of MessageHandler drops nothing (C11_net_multi_event_complete); with a clock stepped back it does drop (compared against the rule only)',
                'zone chain depth <= 32 (Zone::OnAllConfigLoaded rejects deeper ones), global zones have no parent/children/endpoints']
 
 
 def canon(lines):
     # which endpoint of a foreign zone the pointer-ordered std::set yields first is an input taken from the run:
     # the detail line is checked by the oracle for admissibility, not compared with the model's own choice
-    return [l for l in lines if not l.startswith('rtd ') and not l.startswith('rtnd ')]
+    return [l for l in lines if not l.startswith('rtd ') and not l.startswith('rtnd ') and not l.startswith('rtmd ') and not l.startswith('rtme ')]
 
 
 class Topo:
@@ -231,7 +231,35 @@ def net_links(rnd, t):
     return links, kind
 
 
-def net_line(rnd, s, tz, links, mode):
+MULTI = [False]   # set while a multi-event case is generated: the same topologies / link sets / targets, op rt_netm
+
+
+def multi_ts(rnd, k):
+    """time stamps (clock offsets at origination) of k distinct events: all equal (one clock tick), non-decreasing with
+    repeats, strictly increasing, decreasing (clock stepped back), arbitrary"""
+    kind = rnd.choice(('eq', 'eq', 'eq', 'nondecr', 'inc', 'dec', 'mix'))
+    if kind == 'eq':
+        ts = [rnd.choice((0, 0, 3))] * k
+    elif kind == 'nondecr':
+        ts = sorted(rnd.choice((0, 0, 1, 2)) for _ in range(k))
+    elif kind == 'inc':
+        ts = sorted(rnd.sample(range(0, 9), k))
+    elif kind == 'dec':
+        ts = sorted(rnd.sample(range(0, 9), k), reverse=True)
+    else:
+        ts = [rnd.randrange(0, 4) for _ in range(k)]
+    return kind, ts
+
+
+def net_line(rnd, s, tz, links, mode, eps=None):
+    if MULTI[0]:
+        k = rnd.choice((2, 2, 3, 4))
+        ss = [s] + [s if (rnd.random() < 0.7 or not eps) else rnd.choice(eps) for _ in range(k - 1)]
+        kind, ts = multi_ts(rnd, k)
+        ilv = rnd.choice((0, 1, 1))
+        return 'rt_netm s=%s ts=%s tz=%d links=%s sched=%s seed=%d mode=%s ilv=%d tick=%d' % (
+            '.'.join(map(str, ss)), '.'.join(map(str, ts)), tz, '.'.join('%d-%d' % l for l in links) or '-',
+            rnd.choice(('fifo', 'lifo', 'rnd', 'rnd')), rnd.randrange(1, 10**6), mode, ilv, rnd.choice((0, 0, 1)) if ilv else 0)
     return 'rt_net s=%d tz=%d links=%s sched=%s seed=%d mode=%s' % (
         s, tz, '.'.join('%d-%d' % l for l in links) or '-', rnd.choice(('fifo', 'lifo', 'rnd', 'rnd')), rnd.randrange(1, 10**6), mode)
 
@@ -252,7 +280,7 @@ def net_chain_case(rnd):
         links, kind = net_links(rnd, t)
         kinds.append(kind)
         tz = rnd.randrange(d) if rnd.random() < 0.6 else d - 1
-        lines.append(net_line(rnd, rnd.choice(t.eps), tz, links, rnd.choice(('relay', 'nextcheck', 'nextcheck'))))
+        lines.append(net_line(rnd, rnd.choice(t.eps), tz, links, rnd.choice(('relay', 'nextcheck', 'nextcheck')), t.eps))
     return {'lines': lines, 'tags': {'family': 'net-chain', 'links': kinds[0]}}
 
 
@@ -296,10 +324,10 @@ def net_tree_case(rnd):
             while t.zones[line[-1]][0] is not None:
                 line.append(t.zones[line[-1]][0])
             s = rnd.choice(t.zones[rnd.choice(line)][2]) if rnd.random() < 0.7 else rnd.choice(t.eps)
-            lines.append(net_line(rnd, s, tz, links, rnd.choice(('relay', 'nextcheck', 'nextcheck'))))
+            lines.append(net_line(rnd, s, tz, links, rnd.choice(('relay', 'nextcheck', 'nextcheck')), t.eps))
         else:
             s = rnd.choice(t.zones[0][2]) if rnd.random() < 0.5 else rnd.choice(t.eps)
-            lines.append(net_line(rnd, s, nz + rnd.randrange(ng), links, 'relay'))
+            lines.append(net_line(rnd, s, nz + rnd.randrange(ng), links, 'relay', t.eps))
     return {'lines': lines, 'tags': {'family': fam, 'links': kinds[0]}}
 
 
@@ -325,6 +353,15 @@ def generate(seed, tier):
     nnet = {'quick': 300, 'thorough': 3000, 'search': 800}.get(tier, 300)
     for i in range(nnet):
         cases.append(net_chain_case(rnd) if rnd.random() < 0.4 else net_tree_case(rnd))
+    nmulti = {'quick': 150, 'thorough': 1500, 'search': 600}.get(tier, 150)
+    MULTI[0] = True
+    try:
+        for i in range(nmulti):
+            cs = net_chain_case(rnd) if rnd.random() < 0.4 else net_tree_case(rnd)
+            cs['tags']['family'] = 'multi-' + cs['tags']['family']
+            cases.append(cs)
+    finally:
+        MULTI[0] = False
     perm = rnd.sample(range(1, 40), 6)
     fam = chain_family(perm)
     if tier == 'quick':
@@ -354,14 +391,16 @@ def _nets(impl_lines):
 
 def nontrivial(case, impl_lines):
     return any(('sent=-' not in l) or ('persist=1' in l) for l in _steps(impl_lines)) or \
-        any('deliv=0 ' not in l for l in _nets(impl_lines))
+        any('deliv=0 ' not in l for l in _nets(impl_lines)) or \
+        any(l.startswith('rtme ') and 'deliv=0 ' not in l for l in impl_lines)
 
 
 def classify(case, detail, impl_lines):
     d = detail or ''
     if 'crash' in d or 'missing-observation' in d or 'malformed' in d:
         return 'crash'
-    for k in ('net-processed-twice', 'net-too-many-deliveries', 'net-incomplete', 'net-not-quiescent', 'net-run-aborted',
+    for k in ('multi-event-stale-rule', 'multi-event-incomplete', 'multi-event-processed-twice', 'multi-event-too-many-deliveries',
+              'net-processed-twice', 'net-too-many-deliveries', 'net-incomplete', 'net-not-quiescent', 'net-run-aborted',
               'ancestor-chain', 'send-to-ineligible', 'foreign-zone-entered-twice', 'persist-decision', 'withheld', 'log-position',
               'origin-zone-construction', 'originZone-stamp', 'duplicate-message', 'stale-connection', 'generator-precondition'):
         if k in d:
